@@ -20,7 +20,7 @@ import operator
 from pprint import pprint
 
 from .core import Path, T, S, Spec, Val, glom, UnregisteredTarget, GlomError, PathAccessError, UP
-from .core import TType, register_op, TargetRegistry, bbrepr, PathAssignError, arg_val, _assign_op
+from .core import TType, register_op, TargetRegistry, bbrepr, PathAssignError, arg_val, _assign_op, _t_child
 
 
 try:
@@ -175,6 +175,12 @@ class Assign:
                 raise
 
             remaining_path = self._orig_path.from_t()[pae.part_idx + 1:]
+            # T / Spec keys of the part being created are read from
+            # this target, not from the fresh containers
+            keys = [(o, a, arg_val(target, a, scope) if o == '[' else a)
+                    for o, a in remaining_path.items()]
+            remaining_path = Path(*[a if o == 'P' else _t_child(T, o, a if v is a else Val(v))
+                                    for o, a, v in keys])
             # the value is already evaluated: the nested Assign takes it as it is
             val = scope[glom](self.missing(), Assign(remaining_path, Val(val), missing=self.missing), scope)
 
